@@ -123,6 +123,10 @@ class CallMixin:
                 if k.arg == "sort":
                     sort = self.sort_of_spec(k.value)
             return T(sort, fmt.format(**{k: v.s for k, v in kw.items()}))
+        if "call" in self.m.hooks:
+            r = self.m.hooks["call"](self, n, st, old)
+            if r is not NotImplemented:
+                return r
         # ---- library patterns (longest prefix of the unparsed call)
         src = ast.unparse(n)
         libs = list(self.cur_contract.get("lib", {}).items()) + list(self.m.lib.items())
